@@ -39,6 +39,8 @@ func c12Decls() []c12Decl {
 		{ID: "lit-file", IsLit: true, Lit: "o1", Rel: "o1"},
 		{ID: "lit-dir", IsLit: true, Lit: "dir", Rel: "dir"},
 		{ID: "lit-nested", IsLit: true, Lit: "dir/o2", Rel: "dir/o2"},
+		{ID: "lit-file-prefix-sibling", IsLit: true, Lit: "o1.log", Rel: "o1.log"},
+		{ID: "lit-dir-prefix-sibling", IsLit: true, Lit: "dir2.tar", Rel: "dir2.tar"},
 		{ID: "glob-top", IsLit: true, Lit: "*.gen", Glob: "*.gen"},
 		{ID: "glob-nested", IsLit: true, Lit: "gen/*.o", Glob: "gen/*.o"},
 		{ID: "glob-nomatch", IsLit: true, Lit: "nomatch/*", Glob: "nomatch/*"},
@@ -58,7 +60,7 @@ func c12Decls() []c12Decl {
 }
 
 // the designatable paths of the project tree (bit i of the tree mask = present)
-var c12Paths = []string{"o1", "dir/o2", "a.gen", "b.gen", "gen/x.o", "o3", "sub/o4", "sub/o5"}
+var c12Paths = []string{"o1", "dir/o2", "a.gen", "b.gen", "gen/x.o", "o3", "sub/o4", "sub/o5", "o1.log", "dir2.tar"}
 
 type c12Case struct {
 	Decls     []string `json:"decls"` // IDs
